@@ -567,13 +567,13 @@ def run(ctx):
     ls_all = lockstep_scenarios()
     rng.shuffle(ls_all)
     ls_all.sort(key=lambda s: (s["strategy"]["period"] != 1, not s.get("env")))   # symmetric period-1 runs first, file-backed first among them
-    ls_sel = ls_all[:64] if quick else ls_all
+    ls_sel = ls_all[:48] if quick else ls_all
     ls_tasks = []
     for i in range(0, len(ls_sel), 2):
         part = ls_sel[i:i + 2]
         keys = {_op_key(c["op"]) for scn in part for cl in scn["threads"] for c in cl}
         ls_tasks.append({"scenarios": part, "alone": {k: alone_map[k] for k in keys if k in alone_map}})
-    ls_done = ctx.map("task_lockstep", ls_tasks, budget_s=ctx.budget_s * (0.35 if quick else 0.6), force=True, min_tasks=16)
+    ls_done = ctx.map("task_lockstep", ls_tasks, budget_s=ctx.budget_s * (0.25 if quick else 0.6), force=True, min_tasks=12)
     violations, inter, samples = [], set(), []
     ls_runs = ls_steps = ls_sw = ls_fb = ls_al = 0
     for _t, r in ls_done:
